@@ -11,21 +11,47 @@ class C05(Prop):
     pkg = "hcore"
     binname = "c05"
     quick_cases = 900
-    thorough_cases = 20000
+    thorough_cases = 6000
     shard = 60
     design_ref = "DESIGN.md 4 C05"
     technique = ("Coq proof about an interleaving machine with one step per shared-memory access of bucket.rs (block size a parameter): "
                  "refinement of complete calls to a bag, protocol/chain invariants preserved by every step hence for every schedule and any "
                  "number of threads; schedule-replay correspondence on the real AtomicBucket through yield points at each atomic access")
-    level_text = "see level_text in vlib/c05.py (filled in at the end of the build)"
-    level_note = ""
+    level_text = ("Theorems (Coq, block size B a parameter, every B >= 1). Complete: C05_sequential_bag / C05_sequential_call - any sequence of "
+                  "complete push / data_with / clear_with / is_empty calls by any threads refines a bag kept as the list of block contents (push "
+                  "adds exactly its value, data_with hands out everything in chain order, clear_with hands out everything and empties, is_empty "
+                  "iff nothing is stored), and the run of a call alone is unique. For EVERY schedule, any number of threads and programs "
+                  "(invariant preserved by each atomic step, C05_conservation_partial): per slot, below the write index it is published or "
+                  "claimed by exactly one thread in flight, at or above it untouched (the write index counts the claims; claims are unique per "
+                  "block and index); a published bit implies a written slot; the thread about to publish finds its own value in its slot; what "
+                  "the read at site 506 hands to a callback are written slots below the published length (no read-before-written); the chain "
+                  "from tail is finite, strictly decreasing in block id (acyclic) and every block behind another is full. The open finding is "
+                  "a theorem (C05_late_claim_refutes), and so are the two repaired defects (model of the code before each fix violates spec_ok "
+                  "outside the late-claim class, the model after the fix does not). Tied to /repo by replaying generated schedules on the real "
+                  "AtomicBucket<Val> through yield points at every shared-memory access and comparing step trace, every slice handed to every "
+                  "callback, every is_empty result and a final sequential read; the executable property spec_ok (no identity cleared twice, no "
+                  "fabrication, written-before-read, snapshot/is_empty completeness, claim order inside a block, pushes = cleared + final read) "
+                  "is evaluated on the implementation's own outputs.")
+    level_note = ("PARTIAL: the conservation theorem over all schedules (C05_conservation_except_late_claim: no identity handed to clears twice; "
+                  "completed pushes = handed-to-clears + resident, outside the late-claim class) is NOT proved; missing are the ownership "
+                  "invariant J4 (a detached chain is walked by exactly the clearer whose CAS succeeded), the identity partition J3, "
+                  "C05_snapshot_sees_completed / C05_is_empty_sound for concurrent runs, that the value carried by a push is the program's "
+                  "value (true by construction of `enter`; not a theorem), and C05_spec_ok_on_model / C05_spec_ok_iff. Those clauses are "
+                  "checked only by evaluation: spec_ok on every replayed schedule (real code) with the model agreeing step by step. Open known "
+                  "finding C05-late-claim (class 1 = the model's run of the case contains a fetch_add returning an index < 64 on a block not "
+                  "reachable from tail; includes benign instances where the clearer still waits for the late claim) suppresses spec failures "
+                  "only on cases in that class. SC interleaving; epoch reclamation (crossbeam-epoch), Block::drop and Backoff are exercised "
+                  "(drop counters: no double drop, no value seen after its destructor) but not modelled; block ids are never reused in the "
+                  "model (what the epoch guard guarantees while a thread is pinned). BLOCK_SIZE = 64 in Exec.v; theorems are for every B >= 1. "
+                  "AtomicBucket has no Drop impl: blocks still in the bucket when it is dropped are leaked with their values (observed, outside "
+                  "this property).")
     rule = ("2-4 threads with 1-3 calls each drawn from the mixes {2 pushers | clearer}, {pusher | clearer | snapshot}, {2 pushers at "
             "hand-over | snapshot}, {2 clearers | pusher}, plus is_empty callers; half of the cases start with a sequential prefix of 62-64 "
             "pushes by one thread so that the raced suffix runs across block hand-over; schedules uniform, bursty or with out-of-range "
             "indices, followed by the round-robin tail; non-trivial = a read (snapshot/clear/is_empty) overlapped a push; distinct = distinct "
             "(programs, executed trace)")
     assumptions = ["SC memory model", "yield hooks placed before each shared-memory access of bucket.rs", "BLOCK_SIZE = 64 (64-bit target)"]
-    trusted_extra = ["harness/sched deterministic scheduler", "crossbeam-epoch reclamation (exercised with drop counters, not modelled)"]
+    trusted_extra = ["harness/sched deterministic scheduler", "stress oracle in harness/hcore/src/bin/c05.rs (logical-clock overlap test for the late-claim excuse)", "crossbeam-epoch reclamation (exercised with drop counters, not modelled)"]
 
     # ---- generator
     def _sched(self, rng, nt, total, pre):
@@ -79,6 +105,27 @@ class C05(Prop):
             total = sum(1 + 5 * min(len(p), 4) for p in progs)
             cases.append(dict(progs=progs, sched=self._sched(rng, nt, total, pre)))
         return cases
+
+    # ---- running: a crash of the driver process (abort in the allocator, segfault) on some case is an
+    # outcome of that case (anomaly 999, fails spec_ok), not a broken harness; the rest is run in a fresh process
+    def evaluate(self, binpath, cases, tier, tag="cases"):
+        from . import core
+        if not cases:
+            return []
+        lines = [self.impl_line(c) for c in cases]
+        outs = []
+        while len(outs) < len(lines):
+            rc, got, err = core.run_impl(binpath, lines[len(outs):], args=self.impl_args(tier), timeout=1800)
+            outs += got[:len(lines) - len(outs)]
+            if len(outs) < len(lines):
+                if rc == 0:
+                    raise core.MachineryBroken("harness binary %s printed %d lines for %d cases\nstderr: %s" % (binpath, len(outs), len(lines), err[-2000:]))
+                outs.append(" ;  ; 0 ;  ; 999")      # the case the process died on
+        parsed = [self.parse_out(c, o) for c, o in zip(cases, outs)]
+        triples = [(i, self.coq_case(c), self.coq_out(c, o)) for i, (c, o) in enumerate(zip(cases, parsed))]
+        res = core.run_model(self.pid, triples, exec_mod=self.exec_mod, shard=self.shard, tag=tag)
+        return [dict(case=c, out=o, agree=res[i][0], spec=res[i][1], known=res[i][2])
+                for i, (c, o) in enumerate(zip(cases, parsed))]
 
     # ---- plumbing
     def impl_line(self, c):
@@ -154,18 +201,60 @@ class C05(Prop):
     def shrink(self, c):
         out = []
         s = c["sched"]
-        # drop schedule entries (but keep long leading bursts intact first)
-        for i in range(len(s) - 1, -1, -1):
-            if i > 0 and i < len(s) - 1 and s[i - 1] == s[i] == s[i + 1] and i < len(s) - 40:
-                continue
-            out.append(dict(c, sched=s[:i] + s[i + 1:]))
+        # the leading burst (sequential prefix) is kept; cut the raced suffix from the end, then single entries
+        k = 0
+        while k < len(s) and s[k] == s[0]:
+            k += 1
+        if k < 40:
+            k = 0
+        tail = s[k:]
+        for cut in (len(tail) // 2, len(tail) // 4):
+            if cut > 0:
+                out.append(dict(c, sched=s[:k] + tail[:-cut]))
         for t, p in enumerate(c["progs"]):
             if len(p) <= 8:
                 for i in range(len(p)):
                     q = [list(x) for x in c["progs"]]
                     del q[t][i]
                     out.append(dict(c, progs=q))
-        return out
+        for i in range(len(tail) - 1, -1, -1):
+            out.append(dict(c, sched=s[:k] + tail[:i] + tail[i + 1:]))
+        return out[:48]
+
+
+    # ---- free-running stress engine (real threads, no scheduler callback), judged by the property
+    def extra_checks(self, ctx):
+        from .core import run_impl
+        k = 1 if ctx["tier"] == "quick" else 4
+        lines = ["STRESS %d %d 0" % (ctx["seed"] * 7 + i, 800) for i in range(k)] + \
+                ["STRESS %d %d 8000" % (ctx["seed"] * 13 + i, 6) for i in range(k)]
+        rc, outs, err = run_impl(ctx["binpath"], lines, timeout=1200)
+        tot = dict(rounds=0, pushes=0, handovers=0, clear_calls=0, snapshots=0, is_empty_calls=0,
+                   lost_excused_by_concurrent_clear=0, violations=0)
+        first = None
+        for o in outs:
+            m = re.match(r"stress (.*?) first=(.*)$", o)
+            if not m:
+                continue
+            for kv in m.group(1).split():
+                a, b = kv.split("=")
+                tot[a] += int(b)
+            if m.group(2) != "-" and first is None:
+                first = m.group(2)
+        ctx["coverage"]["stress"] = tot
+        ctx["coverage"]["stress_rule"] = ("free-running rounds: 4-8 pushers of tagged values || 0-2 clearers (pausing between clears) || 1-2 "
+                                          "snapshotters || an is_empty prober when nobody clears, then join + final clear_with; violations: "
+                                          "fabricated/torn/dropped value handed out, identity handed to clears twice or shown twice by one "
+                                          "snapshot, per-thread order broken inside a slice, a value handed to nobody unless a concurrent "
+                                          "clear_with call overlapped its push (late-claim class), and - with no concurrent clearer - a snapshot "
+                                          "missing a push that returned before it began or is_empty = true after a push returned")
+        if rc != 0 or len(outs) != len(lines):
+            return [("stress", "the stress engine crashed or did not finish (rc=%s)" % rc,
+                     dict(stress_lines=lines, observed=outs, stderr=err[-800:]))]
+        if tot["violations"]:
+            return [("stress", "free-running stress round violates the property: %s" % first,
+                     dict(stress_lines=lines, observed=outs, totals=tot))]
+        return []
 
 
 PROP = C05()
